@@ -226,6 +226,25 @@ func init() {
 		},
 		quickS: 300, thoroughS: 1500,
 	}
+	jobTable["C18"] = jobSet{
+		quick: []Job{
+			{Scenario: "ticker2", Budgets: bs(B(2, 0)), Split: 1},
+			{Scenario: "tm3", Budgets: bs(B(2, 0)), Split: 1},
+			{Scenario: "coincide/N=2", Budgets: bs(B(1, 0)), Split: 1},
+			{Scenario: "coincide/N=2/at=1999ms", Budgets: bs(B(1, 0)), Split: 1},
+			{Scenario: "coincide/N=2/at=2001ms", Budgets: bs(B(1, 0)), Split: 1},
+		},
+		thorough: []Job{
+			{Scenario: "ticker2", Budgets: bs(B(3, 0)), Split: 2},
+			{Scenario: "ticker2/rounds=3", Budgets: bs(B(2, 0)), Split: 2},
+			{Scenario: "tm3", Budgets: bs(B(3, 0)), Split: 2},
+			{Scenario: "coincide/N=2", Budgets: bs(B(2, 0)), Filter: "tickeronly", Split: 2},
+			{Scenario: "coincide/N=2/at=1999ms", Budgets: bs(B(1, 0)), Split: 1},
+			{Scenario: "coincide/N=2/at=2001ms", Budgets: bs(B(1, 0)), Split: 1},
+			{Scenario: "coincide/N=1", Budgets: bs(B(2, 0)), Filter: "tickeronly", Split: 2},
+		},
+		quickS: 300, thoroughS: 1800,
+	}
 	jobTable["C07"] = jobSet{
 		quick: []Job{
 			{Scenario: "inject/N=2", Budgets: bs(B(0, 1)), Split: 1},
